@@ -34,6 +34,14 @@ def opted_out(job):
     return CacheScope(opts.get("cache_scope", CacheScope.BACKEND)) == CacheScope.NONE or not opts.get("prov", True)
 
 
+KF_CTX_TWIN = "twin-resubmitted:context-free-call-after-twin-under-context"
+# the same call without a context, then under a context (same result, so the same CallNode, which gets the context
+# tag), then without a context again: in an execution without the backend cache the third one runs again
+X5 = ("x", "leaf", 5, (), None)
+WITNESS_CTX = ("root", "seq", 0, (("s1", "seq", 0, (X5, ("w", "list", 0, (X5,), {"context": {"k": 2}})), None),
+                                  ("late", "list", 1, (X5,), None)), None)
+
+
 def check_run(out):
     """Implementation oracle on one run. Returns list of (key, what)."""
     tr = out["tracer"]
@@ -52,7 +60,9 @@ def check_run(out):
         subs = [j for j in jobs if tr.ex.nsubmits.get(j.id, 0) >= 1]
         if len(subs) > 1:
             others = [j for j in tr.jobobj if j.eval_hash == key[0] and opted_out(j)]
-            kind = ("twin-resubmitted:entry-popped-by-opted-out-twin" if others else "twin-resubmitted")
+            ctx_twins = [j for j in tr.jobobj if j.eval_hash == key[0] and j.context_hash is not None]
+            kind = ("twin-resubmitted:entry-popped-by-opted-out-twin" if others else
+                    KF_CTX_TWIN if key[1] is None and ctx_twins else "twin-resubmitted")
             bad.append((kind, f"jobs {[tr.jobid[j.id] for j in subs]} with the same task, arguments and context were all "
                               f"handed to an executor"))
         # duplicates agree: all settled jobs of this key have the same status
@@ -67,7 +77,8 @@ class Check(PropertyCheck):
     module = "Props.C06"
     extra_modules = ["Model.JobTrace"]
     theorems = ["C06_one_submitter_per_key", "C06_job_submitted_at_most_once", "C06_submitter_stays_visible",
-                "C06_twin_records_provenance", "C06_refuted_as_shipped", "C06_witness_fixed"]
+                "C06_twin_records_provenance", "C06_refuted_as_shipped", "C06_witness_fixed",
+                "C06_refuted_context_twin", "C06_context_twin_exact"]
     variant = None
     assumptions = [
         "results of calls contain no Handle state that was rolled back meanwhile (such a CSE hit is deliberately re-derived)",
@@ -79,8 +90,15 @@ class Check(PropertyCheck):
 
     def translate(self):
         p, self.variant = jobcheck.translate_variant("C06", "")
-        if self.variant["pending_owner_safe"]:
-            tie = "Lemma C06_tie : pending_owner_safe gen_variant = true.\nProof. reflexivity. Qed.\n"
+        if self.variant["pending_owner_safe"] and self.variant["ctx_exact"]:
+            tie = ("Lemma C06_tie : pending_owner_safe gen_variant = true /\\ ctx_exact gen_variant = true.\n"
+                   "Proof. split; reflexivity. Qed.\n")
+        elif self.variant["pending_owner_safe"]:
+            tie = ("(* the same-execution look-up works on CallNode tags: C06_one_submitter_per_key needs ctx_exact and does "
+                   "not apply; C06_refuted_context_twin is the applicable theorem (registered known finding), "
+                   "C06_job_submitted_at_most_once and C06_twin_records_provenance apply as they are *)\n"
+                   "Lemma C06_tie_ctx : pending_owner_safe gen_variant = true /\\ ctx_exact gen_variant = false.\n"
+                   "Proof. split; reflexivity. Qed.\n")
         else:
             tie = ("(* submitting overwrites / finalizing pops the _pending_jobs entry regardless of its owner: "
                    "C06_refuted_as_shipped is the applicable theorem *)\n"
@@ -102,7 +120,24 @@ class Check(PropertyCheck):
         out2 = sched.run_program(lambda: vm.call(WITNESS2), {"r0": 1}, random.Random(self.seed), complete_prob=0.0,
                                  priority=PRIORITY2, cache=False)
         out2["spec"], out2["limits"] = WITNESS2, {"r0": 1}
-        runs = [("witness", out), ("witness2", out2)] + [("random", o) for o in getattr(self, "runs", [])]
+        out3 = sched.run_program(lambda: vm.call(WITNESS_CTX), {"r0": 1}, random.Random(self.seed), cache=False)
+        out3["spec"], out3["limits"] = WITNESS_CTX, {"r0": 1}
+        runs = [("witness", out), ("witness2", out2), ("witness-ctx", out3)] + [("random", o) for o in getattr(self, "runs", [])]
+        # twins parked together in the limits queue behind a blocker that holds the whole limit, woken together when it
+        # completes (seeded change C06b: the pending-twin check skipped on re-entry from the limits queue)
+        for lim, cache, nt in [(2, True, 2), (3, True, 3), (2, False, 2), (1, False, 2), (2, True, 3)]:
+            T = ("T", "leaf", 3, (), {"limits": {"r0": 1}})
+            B = ("B", "leaf", 1, (), {"limits": {"r0": lim}})
+            parents = tuple((f"P{i}", "list", i, (T,), None) for i in range(nt))
+            spec = ("root", "list", 0, (B,) + parents, None)
+            o = sched.run_program(lambda: vm.call(spec), {"r0": lim}, random.Random(self.seed), complete_prob=0.0,
+                                  priority=["root"] + [f"P{i}" for i in range(nt)] + ["T", "B"], cache=cache)   # the blocker completes last
+            o["spec"], o["limits"] = spec, {"r0": lim}
+            if "result" not in o:
+                self.findings.append(Finding(f"parked-twins-run-fails:{lim}:{cache}:{nt}",
+                                             f"the run ended with {o.get('error', o.get('deadlock'))!r} instead of a result",
+                                             {"kind": "parked-twins", "spec": repr(spec), "limits": {"r0": lim}}))
+            runs.append((f"parked-twins:{lim}:{cache}:{nt}", o))
         nb = 0
         for kind, o in runs:
             self.evaluations += 1
@@ -112,6 +147,12 @@ class Check(PropertyCheck):
         self.stat("oracle", "runs", len(runs))
         self.stat("oracle", "violations", nb)
         self.ob("oracle", "implementation oracle ran (submissions per key, per job; duplicates agree)", True)
+        if self.variant is not None:
+            expect = not self.variant.get("ctx_exact", True)
+            got = any(f.key == KF_CTX_TWIN and f.replay.get("kind") == "witness-ctx" for f in self.findings)
+            self.ob("tie-witness", "C06_refuted_context_twin witness " + ("reproduces on the real code (look-up on CallNode tags)"
+                    if expect else "does not reproduce (exact look-up)"), got == expect,
+                    f"translator says ctx_exact={not expect}, witness reproduces: {got}")
         if self.variant is not None and not self.variant["pending_owner_safe"] and not any(
                 f.key.startswith("twin-resubmitted") for f in self.findings):
             self.ob("tie-witness", "C06_refuted_as_shipped witness reproduces on the real code", False,
